@@ -106,6 +106,7 @@ class Interp:
         self.callsites = {}        # (callee, line) -> [reached, normal return feasible]
         self.dmap_keys = {}        # Ref -> key terms used on this path (for model concretisation)
         self.shadowed = []         # newer heaps swapped out while an older state is being evaluated (old(), ...)
+        self.loop_aliases = []     # per active loop contract: contract name -> actual local name (renamed locals)
 
     # ================================================================ fresh
     def fresh(self, shape, name):
@@ -731,6 +732,10 @@ class Interp:
         name = n.id
         if name in self.env:
             return self.env[name]
+        if self.spec_depth and self.loop_aliases:
+            for al in reversed(self.loop_aliases):
+                if name in al and al[name] in self.env:
+                    return self.env[al[name]]
         if self.spec_depth:
             if name == "result":
                 return self.result
@@ -1463,7 +1468,10 @@ class Interp:
             if fc0 is None or "self" not in self.env:
                 raise Unsupported("super() outside a method")
             return VFn("super", obj=self.force(self.env["self"]).ref, cls=fc0.qualname.split(".")[0])
-        fn = self.eval(n.func)
+        if self.spec_depth and isinstance(n.func, ast.Name) and n.func.id in self.cset.helpers:
+            fn = VFn("helper", name=n.func.id)      # a specification function, even if a local has the same name
+        else:
+            fn = self.eval(n.func)
         args = []
         for a in n.args:
             if isinstance(a, ast.Starred):
@@ -2281,7 +2289,48 @@ class Interp:
                 continue
         self.exec_block(s.orelse)
 
+    def _loop_roles(self, s, spec):
+        """resolve the role names of a loop contract to the actual locals (see LoopSpec.roles)"""
+        out = {}
+        roles = getattr(spec, "roles", None) or {}
+        if not roles:
+            return out
+        body_assigned = _assigned_names(s.body)
+        targets = _target_names(s.target) if isinstance(s, ast.For) else set()
+        accs = set()
+        for st in ast.walk(ast.Module(body=list(s.body), type_ignores=[])):
+            if isinstance(st, ast.AugAssign) and isinstance(st.target, ast.Name):
+                accs.add(st.target.id)
+            if isinstance(st, ast.Assign) and len(st.targets) == 1 and isinstance(st.targets[0], ast.Name):
+                nm = st.targets[0].id
+                if any(isinstance(x, ast.Name) and x.id == nm for x in ast.walk(st.value)):
+                    accs.add(nm)
+        accs -= targets
+        counters = set()
+        for st in ast.walk(ast.Module(body=list(s.body), type_ignores=[])):
+            if isinstance(st, ast.AugAssign) and isinstance(st.target, ast.Name) and \
+                    isinstance(st.value, ast.Constant) and isinstance(st.op, (ast.Add, ast.Sub)):
+                counters.add(st.target.id)
+        accs_only = accs - counters
+        for cname, rule in roles.items():
+            if cname in self.env or cname in body_assigned or cname in targets:
+                continue            # the local still has the name the contract uses
+            if rule == "target" and len(targets) == 1:
+                out[cname] = next(iter(targets))
+            elif rule == "acc" and len(accs_only) == 1:
+                out[cname] = next(iter(accs_only))
+            elif rule == "counter" and len(counters) == 1:
+                out[cname] = next(iter(counters))
+        return out
+
     def inv_loop(self, s, k, spec, cond, pre_body=None, post_body=None, extra_havoc=(), extra_inv=None):
+        self.loop_aliases.append(self._loop_roles(s, spec))
+        try:
+            return self._inv_loop(s, k, spec, cond, pre_body, post_body, extra_havoc, extra_inv)
+        finally:
+            self.loop_aliases.pop()
+
+    def _inv_loop(self, s, k, spec, cond, pre_body=None, post_body=None, extra_havoc=(), extra_inv=None):
         fc = self.frames[-1].fc
         fname = self.frames[0].fc.key
 
